@@ -172,3 +172,58 @@ Proof.
     + apply Hy. rewrite Q. apply (in_map (fun x => nname (enode x))), Ix.
     + apply (Hs x (or_intror Ix) Q).
 Qed.
+
+(* ------------------------------------------------------------ products printed once (the repaired command line) *)
+
+Lemma mem_key_In x l : mem_key x l = true <-> In x l.
+Proof.
+  induction l as [|y l IH]; simpl; [split; [discriminate | intros []]|].
+  destruct (ukey_eqb x y) eqn:E.
+  - apply ukey_eqb_eq in E. subst. split; auto.
+  - rewrite IH. split; [auto|]. intros [H | H]; [|exact H].
+    subst. assert (X : ukey_eqb x x = true) by (apply ukey_eqb_eq; reflexivity). congruence.
+Qed.
+
+Lemma first_of_product_sub : forall l seen x, In x (first_of_product seen l) -> In x l.
+Proof.
+  induction l as [|y l IH]; simpl; intros seen x H; [exact H|].
+  destruct (mem_key (ukey_of (enode y)) seen); [right; eapply IH; eauto|].
+  destruct H as [-> | H]; [left; reflexivity | right; eapply IH; eauto].
+Qed.
+
+Lemma first_of_product_keys : forall l seen x, In x l ->
+  In (ukey_of (enode x)) seen \/
+  exists x', In x' (first_of_product seen l) /\ ukey_of (enode x') = ukey_of (enode x).
+Proof.
+  induction l as [|y l IH]; simpl; intros seen x H; [destruct H|].
+  destruct (mem_key (ukey_of (enode y)) seen) eqn:E.
+  - destruct H as [<- | H]; [left; apply mem_key_In, E | apply IH, H].
+  - destruct H as [<- | H]; [right; exists y; split; [left; reflexivity | reflexivity]|].
+    destruct (IH (ukey_of (enode y) :: seen) x H) as [[Q | Q] | [x' [I Q]]].
+    + right. exists y. split; [left; reflexivity | exact Q].
+    + left. exact Q.
+    + right. exists x'. split; [right; exact I | exact Q].
+Qed.
+
+Lemma first_of_product_id : forall l seen,
+  NoDup (map (fun x => ukey_of (enode x)) l) -> (forall x, In x l -> ~ In (ukey_of (enode x)) seen) ->
+  first_of_product seen l = l.
+Proof.
+  induction l as [|y l IH]; simpl; intros seen Hn Hs; [reflexivity|].
+  inversion Hn as [|? ? Hy Hl]. subst.
+  destruct (mem_key (ukey_of (enode y)) seen) eqn:E.
+  - apply mem_key_In in E. destruct (Hs y (or_introl eq_refl) E).
+  - f_equal. apply IH; [exact Hl|]. intros x Ix [Q | Q].
+    + apply Hy. rewrite Q. apply (in_map (fun x => ukey_of (enode x))), Ix.
+    + apply (Hs x (or_intror Ix) Q).
+Qed.
+
+Lemma nodup_map_inj_on {A B} (f : A -> B) : forall l,
+  NoDup l -> (forall a b, In a l -> In b l -> f a = f b -> a = b) -> NoDup (map f l).
+Proof.
+  induction l as [|x l IH]; simpl; intros Hn Hi; [constructor|].
+  inversion Hn as [|? ? Hx Hl]. subst. constructor.
+  - intros I. apply in_map_iff in I as [y [E Iy]]. apply Hx.
+    rewrite (Hi x y (or_introl eq_refl) (or_intror Iy) (eq_sym E)). exact Iy.
+  - apply IH; [exact Hl|]. intros a b Ia Ib. apply Hi; right; assumption.
+Qed.
